@@ -233,6 +233,7 @@ type harness struct {
 	headOld, headNew *worldState
 	headCrowded      bool // that head change reinjected transactions into a pool at its size limit
 	batchSize        int
+	batchAccts       [nAcct]bool
 	// everPooled: hashes the pool has accepted at some time; gone: transactions that left
 	// the pool (most recent last); readdPossible: a transaction re-entered the pool since
 	// the price heap was last rebuilt (see class priced-duplicate-after-readd)
@@ -511,15 +512,20 @@ func (h *harness) attribute(viols []*violation, cur *core.VerifPoolSnapshot, vs 
 		}
 	}
 	// demotedOf: transactions of account i that were pending after the previous step and are queued now
+	// (by nonce, not by hash: the submission whose pool-full eviction demoted a transaction
+	// may replace that very transaction in the queue - a replacement does not mark the
+	// account dirty, so no cap follows - and then no demoted hash is left to see. A nonce
+	// that was pending cannot reach the queue of an over-limit account in any other way: a
+	// fresh submission to it would have marked the account dirty and capped the queue)
 	demotedOf := func(i int) int {
 		n := 0
 		if h.prev != nil {
-			was := map[common.Hash]bool{}
+			was := map[uint64]bool{}
 			for _, tx := range h.prev.Pending[addrs[i]] {
-				was[tx.Hash()] = true
+				was[tx.Nonce()] = true
 			}
 			for _, tx := range cur.Queued[addrs[i]] {
-				if was[tx.Hash()] {
+				if was[tx.Nonce()] {
 					n++
 				}
 			}
@@ -536,9 +542,13 @@ func (h *harness) attribute(viols []*violation, cur *core.VerifPoolSnapshot, vs 
 			if x.acct >= 0 && gapAcct[x.acct] {
 				continue // consequence of the gap on the same account
 			}
+		case "queued-not-above-pending":
+			if x.acct >= 0 && gapAcct[x.acct] {
+				continue // the pending run above the gap overlaps the queue: consequence of the gap
+			}
 		case "queued-promotable":
-			if x.acct >= 0 && lowAcct[x.acct] {
-				continue // consequence of the too low noncer on the same account
+			if x.acct >= 0 && (lowAcct[x.acct] || gapAcct[x.acct]) {
+				continue // consequence of the too low noncer / of the gap on the same account
 			}
 			if i := x.acct; i >= 0 && h.mergedBatch[i] {
 				promotable[i] = true
@@ -889,7 +899,9 @@ func (h *harness) doAdd(op Op, when string) *kit.Result {
 	acceptedHash := map[common.Hash]bool{}
 	accepted := 0
 	for i, r := range rs {
-		if h.everPooled[r.tx.Hash()] && !pooledBefore[r.tx.Hash()] {
+		// (with lifetime eviction in the background the transaction may leave the pool between
+		// the snapshot and the submission)
+		if h.everPooled[r.tx.Hash()] && (!pooledBefore[r.tx.Hash()] || h.c.Evict) {
 			h.readdPossible = true
 			h.labels["redelivery-of-departed-tx"] = true
 		}
@@ -1018,8 +1030,13 @@ func (h *harness) mergedAddHead(op Op, when string, txs []*types.Transaction, ef
 		}
 	}
 	h.batchSize = len(txs)
+	for _, tx := range txs {
+		if info := h.known[tx.Hash()]; info != nil {
+			h.batchAccts[info.acct] = true
+		}
+	}
 	moved := h.doHead(op, when, merged)
-	h.batchSize = 0
+	h.batchSize, h.batchAccts = 0, [nAcct]bool{}
 	if moved {
 		return errs
 	}
@@ -1217,7 +1234,9 @@ func (h *harness) partialReinjectRisk(before *core.VerifPoolSnapshot, old, tip *
 	crowded := len(before.All)+h.batchSize+re >= globalSlots+globalQueue
 	for i := 0; i < nAcct; i++ {
 		s, o := tip.st[i].nonce, old.st[i].nonce
-		if s >= o || len(before.Pending[addrs[i]]) == 0 {
+		// (h.batchAccts: the account submits in the same run; what it submits may be promoted
+		// by that run and then plays the part of the old pending run)
+		if s >= o || (len(before.Pending[addrs[i]]) == 0 && !h.batchAccts[i]) {
 			continue
 		}
 		if crowded {
